@@ -955,3 +955,43 @@ func VerifC01ContainsMap() {
 	verifCover("C01/contains-map/end")
 }
 
+
+// VerifC01ObjectKeys: object construction with several entries: `{K1: v1, K2: v2, K3: v3}` is the map with exactly those
+// entries in that order - keys are data, whatever characters they hold (K over '*'..'z': glob characters, digits,
+// punctuation, letters; pairwise different).
+func VerifC01ObjectKeys() {
+	n := 2 + verifChoice("entries", 2)
+	keys := make([]string, n)
+	text := "{"
+	for i := 0; i < n; i++ {
+		keys[i] = verifStrN("k"+verifItoa(int64(i)), 1, "*z")
+		for j := 0; j < i; j++ {
+			verifAssume(!verifEqStr(keys[i], keys[j]))
+		}
+		if i > 0 {
+			text += ", "
+		}
+		text += "\"777000" + verifItoa(int64(i)) + "\": " + []string{".b", ".s", "7"}[i]
+	}
+	text += "}"
+	e := vParse(text)
+	for i := 0; i < n; i++ {
+		vSubst(e, "777000"+verifItoa(int64(i)), "!!str", keys[i])
+	}
+	res, err := vEval(e, vDoc(vMap(vStr("b"), vInt("1"), vStr("s"), vStr("str"))))
+	verifAssert(err == nil && res != nil && res.Len() == 1, "C01/object-construction-failed")
+	if err != nil || res.Len() != 1 {
+		return
+	}
+	m := res.Front().Value.(*CandidateNode)
+	verifAssert(m.Kind == MappingNode && len(m.Content) == 2*n, "C01/object-construction-entry-count")
+	if m.Kind != MappingNode || len(m.Content) != 2*n {
+		return
+	}
+	vals := []string{"1", "str", "7"}
+	for i := 0; i < n; i++ {
+		verifAssert(verifEqStr(m.Content[2*i].Value, keys[i]), "C01/object-construction-key")
+		verifAssert(m.Content[2*i+1].Value == vals[i], "C01/object-construction-value")
+	}
+	verifCover("C01/object-keys/end")
+}
